@@ -502,7 +502,7 @@ fn inject_two(stmts: &[H], cls: CClass, cls2: Option<CClass>, r: &mut Rng, every
                     return None;
                 }
                 n += 1;
-                let c = format!("// c{}_{} {}", si, n, ["note", "it's", "a \"quoted\" word", "x = 1", "[not, code]", "", "ünï"][rr.below(7)]);
+                let c = format!("// c{}_{} {}", si, n, ["note", "it's", "a \"quoted\" word", "x = 1", "[not, code]", "", "ünï", "see https://example.com/a//b", "first // second", "//// banner ////", "# hash /* block */"][rr.below(11)]);
                 let c = c.trim_end().to_string();
                 Some(match kind {
                     1 => format!("\n  {}\n  ", c),
@@ -525,13 +525,13 @@ fn inject_two(stmts: &[H], cls: CClass, cls2: Option<CClass>, r: &mut Rng, every
         match cls {
             CClass::P1OwnLineBeforeStmt if every || rr.chance(1, 2) => {
                 n += 1;
-                text = format!("// lead{}_{}\n{}", si, n, text);
+                text = format!("// lead{}_{}{}\n{}", si, n, ["", "", " https://example.com/rates", " // again", "//"][rr.below(5)], text);
             }
             CClass::P2StmtEol if every || rr.chance(1, 2) => {
                 n += 1;
                 // the gap before an end-of-line comment is free: none at all, one space, two, a tab
                 let gap = ["", " ", "  ", "\t", "   "][rr.below(5)];
-                text = format!("{}{}// eol{}_{}", text, gap, si, n);
+                text = format!("{}{}// eol{}_{}{}", text, gap, si, n, ["", "", " // incl. tax", " http://x.y/z", "////"][rr.below(5)]);
             }
             _ => {}
         }
@@ -540,7 +540,7 @@ fn inject_two(stmts: &[H], cls: CClass, cls2: Option<CClass>, r: &mut Rng, every
     let mut src = out_stmts.join("\n");
     if cls == CClass::P3OwnLineAtEnd {
         n += 1;
-        src.push_str("\n// the end");
+        src.push_str(["\n// the end", "\n// the end // really", "\n//// the end ////"][r.below(3)]);
     }
     (src, n)
 }
